@@ -393,6 +393,12 @@ func (a *Analysis) ruleBuiltins() {
 			}
 			rec := inv.Args[i]
 			if rec.Kind == ArgNil {
+				if d.Optional && inv.Op >= 0 && a.ops[inv.Op].Handle >= 0 && a.closingStartedBefore(a.ops[inv.Op].Handle, inv.EnterSeq) {
+					// the scope was being closed: resolving the built-in failed with the disposed error and the
+					// optional tag swallowed it - the recorded C15 finding (optional-swallow), not a C18 matter
+					a.add("C15", "C15.optional", "optional-swallow", "r%d#%d: optional built-in field %s left nil because its resolution failed while the scope was closing", inv.Reg, inv.N, d)
+					continue
+				}
 				a.add("C18", "C18.inject", "nil-builtin", "r%d#%d: built-in parameter %s was nil", inv.Reg, inv.N, d)
 				continue
 			}
@@ -477,11 +483,40 @@ func (a *Analysis) ruleBuiltins() {
 				a.add("C18", "C18.ctx", "value", "scope h%d: Context().Value(callerKey) = %v, want %v", i, v, hd.Ctx.val)
 			}
 		}
+		if hd.CtxKind == CtxValueOnly {
+			if v := hd.ScopeCtx.Value(hd.ValKey); v != hd.ValVal {
+				a.add("C18", "C18.ctx", "value/no-cancel", "scope h%d created on h%d with a value-only context: Context().Value(callerKey) = %v, want %v", i, hd.Parent, v, hd.ValVal)
+			}
+			// values of the parent scope's context are visible only when the passed context derives from it
+			if ph := h.handle(hd.Parent); ph != nil && ph.Kind == HScope {
+				var pk, pv any
+				if ph.CtxKind == CtxValue && ph.Ctx != nil {
+					pk, pv = ph.Ctx.key, ph.Ctx.val
+				} else if ph.CtxKind == CtxValueOnly {
+					pk, pv = ph.ValKey, ph.ValVal
+				}
+				if pk != nil {
+					v := hd.ScopeCtx.Value(pk)
+					if hd.Detached && v != pv {
+						a.add("C18", "C18.ctx", "value/no-cancel", "scope h%d created with WithoutCancel(h%d.Context()): parent's context value not visible", i, hd.Parent)
+					}
+					if !hd.Detached && v != nil {
+						a.add("C18", "C18.ctx", "value/no-cancel", "scope h%d created on h%d with an unrelated value-only context sees the parent's context value %v", i, hd.Parent, v)
+					}
+				}
+			}
+		}
 		if hd.CtxKind == CtxNil && hd.Parent > 0 {
 			// parent scope's values are visible
 			ph := h.handle(hd.Parent)
+			var pk, pv any
 			if ph != nil && ph.CtxKind == CtxValue && ph.Ctx != nil {
-				if v := hd.ScopeCtx.Value(ph.Ctx.key); v != ph.Ctx.val {
+				pk, pv = ph.Ctx.key, ph.Ctx.val
+			} else if ph != nil && ph.CtxKind == CtxValueOnly {
+				pk, pv = ph.ValKey, ph.ValVal
+			}
+			if pk != nil {
+				if v := hd.ScopeCtx.Value(pk); v != pv {
 					a.add("C18", "C18.ctx", "value-inherit", "scope h%d created with nil ctx on h%d: parent's context value not visible", i, hd.Parent)
 				}
 			}
@@ -564,6 +599,16 @@ func (a *Analysis) ruleErrors() {
 				onlyNil = false
 				if errors.Is(op.Err, error(c.Fault.Err)) {
 					matched = true
+					// the constructor's own error value (a wrapper around the sentinel in two of three
+					// cases) must be reachable as well, not only what it wraps
+					if ret := c.Fault.Returned; ret != nil && !errors.Is(op.Err, ret) {
+						a.add("C15", "C15.ctorError", "own-error-skipped/"+opNames[op.Op.Kind], "op%d %s: constructor r%d#%d returned %T (%v); errors.Is finds the cause it wraps but not the constructor's own error value", op.GID, op.Op, c.Reg, c.N, ret, ret)
+					} else if we, ok := ret.(*wrapErr); ok {
+						var got *wrapErr
+						if !errors.As(op.Err, &got) || got != we {
+							a.add("C15", "C15.ctorError", "own-error-skipped/"+opNames[op.Op.Kind], "op%d %s: constructor r%d#%d returned a *wrapErr; errors.As does not extract it from the reported error", op.GID, op.Op, c.Reg, c.N)
+						}
+					}
 				}
 			case OutPanic:
 				onlyNil = false
